@@ -14,7 +14,7 @@
 #define BLANK         V_BLANK
 
 extern "C" {
-   extern int g_remaining, g_consumed, g_calls, g_good, g_eof;        /* stream state */
+   extern int g_remaining, g_consumed, g_calls, g_good, g_eof, g_fail;        /* stream state */
    extern char* gp_save;                                     /* strtok's hidden state */
    extern char* gp_host; extern int* gp_lineno; extern char* gp_buf;
    extern const char** gp_f1; extern const char** gp_f2; extern const char** gp_f3; extern const char** gp_f4; extern const char** gp_f5; extern bool* gp_isint;
@@ -87,7 +87,7 @@ struct IStreamStub
       g_calls = (int)((unsigned)g_calls + 1u);
       if(g_remaining <= 0)
       {
-         b[0] = '\0'; g_good = 0; g_eof = 1;               /* end of file: nothing extracted, eofbit|failbit, sticky */
+         b[0] = '\0'; g_good = 0; g_eof = 1; g_fail = 1;   /* end of file: nothing extracted, eofbit|failbit, sticky */
          return *this;
       }
       g_remaining--; g_consumed++;
@@ -95,11 +95,13 @@ struct IStreamStub
       int k = nondet_int();
       __CPROVER_assume(0 <= k && k <= MAX_LINE_LEN - 1);
       b[k] = '\0';
-      g_good = nondet_int() != 0; g_eof = nondet_int() != 0;   /* normal line / last line without newline / overlong line / bad stream */
+      g_eof = nondet_int() != 0; g_fail = nondet_int() != 0;   /* normal line / last line without newline / overlong line / bad stream */
+      g_good = !g_eof && !g_fail && nondet_int() != 0;          /* (badbit also clears good()) */
       return *this;
    }
    bool good() const { return g_good != 0; }
    bool eof() const { return g_eof != 0; }
+   bool fail() const { return g_fail != 0; }
 };
 
 /* ---- the static helpers, verbatim bodies ------------------------------------------------------------------ */
@@ -141,9 +143,14 @@ struct H : MPSHost
    }
 };
 
-/* offsets of the six field pointers into m_buf (-1 = NULL, -2 = points elsewhere) and, per field, the position of
- * the first terminator at or behind it (MAX_LINE_LEN = none); the buffer is copied out for the contract */
-extern "C" int w_readline(int section, int lineno, int is_integer, int is_new_format, char* buf_out, int* off, int* end,
+/* per field i: off[i] = offset of m_f<i> into m_buf (-1 = NULL, -2 = points outside m_buf), c0[i] = its first
+ * character.  first_pos(off, 2) ASSERTS that a terminator follows inside m_buf (the "NUL-terminated suffix" claim)
+ * and returns its position.  Loop-free on purpose (every statement of the wrapper is instrumented by dfcc). */
+#define FIELD_OUT(i, f) \
+   if((f) == nullptr) { off[i] = -1; end[i] = -1; c0[i] = '\0'; } \
+   else if(!__CPROVER_same_object((f), h.m_buf)) { off[i] = -2; end[i] = -1; c0[i] = '\0'; } \
+   else { off[i] = (int)((f) - h.m_buf); { int o_ = off[i]; int e_ = first_pos(o_, 2); end[i] = e_; } /* temporaries: goto-instrument 6.11 crashes on the direct form */ c0[i] = *(f); }
+extern "C" int w_readline(int section, int lineno, int is_integer, int is_new_format, int* off, int* end, char* c0,
                           int* lineno_out)
 {
    H h;
@@ -153,20 +160,9 @@ extern "C" int w_readline(int section, int lineno, int is_integer, int is_new_fo
    gp_host = (char*)&h; gp_lineno = &h.m_lineno; gp_buf = h.m_buf; gp_save = nullptr;
    gp_f1 = &h.m_f1; gp_f2 = &h.m_f2; gp_f3 = &h.m_f3; gp_f4 = &h.m_f4; gp_f5 = &h.m_f5; gp_isint = &h.m_is_integer;
    bool r = h.body();
-   const char* f[6] = { h.m_f0, h.m_f1, h.m_f2, h.m_f3, h.m_f4, h.m_f5 };
-   for(int i = 0; i < 6; i++)
+   if(r)
    {
-      if(f[i] == nullptr) off[i] = -1;
-      else if(__CPROVER_same_object(f[i], h.m_buf)) off[i] = (int)(f[i] - h.m_buf);
-      else off[i] = -2;
-      end[i] = MAX_LINE_LEN;
-   }
-   for(int j = MAX_LINE_LEN - 1; j >= 0; j--)
-   {
-      buf_out[j] = h.m_buf[j];
-      if(h.m_buf[j] == '\0')
-         for(int i = 0; i < 6; i++)
-            if(0 <= off[i] && off[i] <= j) end[i] = j;
+      FIELD_OUT(0, h.m_f0) FIELD_OUT(1, h.m_f1) FIELD_OUT(2, h.m_f2) FIELD_OUT(3, h.m_f3) FIELD_OUT(4, h.m_f4) FIELD_OUT(5, h.m_f5)
    }
    *lineno_out = h.m_lineno;
    return r ? 1 : 0;
